@@ -16,6 +16,8 @@ import (
 	"bytes"
 	"encoding/binary"
 	"fmt"
+	"math"
+	"math/big"
 	"math/rand"
 	"sort"
 	"strings"
@@ -57,9 +59,26 @@ type lockupEnv struct {
 	durSeen  map[int64]bool
 	timeSeen map[int64]bool
 	lastOp   string
+	K        osmomath.Int // per-history magnitude scale: every real amount is (shadow units) x K
 }
 
 func (e *lockupEnv) ctx() sdk.Context { return e.h.Ctx }
+
+// magnitude scaling: the shadow keeps int64 UNITS, the chain (and the op lines / observations) the REAL amounts units x K.
+func (e *lockupEnv) real(units int64) osmomath.Int { return e.K.MulRaw(units) }
+func (e *lockupEnv) coin(denom string, units int64) sdk.Coin {
+	return sdk.Coin{Denom: denom, Amount: e.real(units)} // not NewCoin: negative / zero amounts must reach ValidateBasic
+}
+
+// units of a real amount; lockup only adds and subtracts amounts that are multiples of K, so must every observable be
+func (e *lockupEnv) units(x osmomath.Int, what string) int64 {
+	q, m := new(big.Int).QuoRem(x.BigInt(), e.K.BigInt(), new(big.Int))
+	if m.Sign() != 0 || !q.IsInt64() {
+		e.o.Fail("amount-not-a-sum-of-locked-amounts:"+what, fmt.Sprintf("%s is not a (small) multiple of the history's amount unit %s", x, e.K))
+		return -1
+	}
+	return q.Int64()
+}
 
 func lockIDs(ls []lockuptypes.PeriodLock) []uint64 {
 	out := make([]uint64, 0, len(ls))
@@ -265,11 +284,11 @@ func (e *lockupEnv) shadowRefs() string {
 }
 
 func (e *lockupEnv) bal(owner, denom string) int64 {
-	return e.h.App.BankKeeper.GetBalance(e.ctx(), e.addrs[owner], denom).Amount.Int64()
+	return e.units(e.h.App.BankKeeper.GetBalance(e.ctx(), e.addrs[owner], denom).Amount, "balance")
 }
 
 func (e *lockupEnv) modBal(denom string) int64 {
-	return e.h.App.BankKeeper.GetBalance(e.ctx(), e.h.App.AccountKeeper.GetModuleAddress(lockuptypes.ModuleName), denom).Amount.Int64()
+	return e.units(e.h.App.BankKeeper.GetBalance(e.ctx(), e.h.App.AccountKeeper.GetModuleAddress(lockuptypes.ModuleName), denom).Amount, "module-balance")
 }
 
 func (e *lockupEnv) accum(denom string, d int64) osmomath.Int {
@@ -387,7 +406,7 @@ func (e *lockupEnv) oracle(op string) {
 		if l.recv != "" {
 			recv = l.recv
 		}
-		want := fmt.Sprintf("%d %s %d %d %s:%d %s", l.id, l.owner, l.dur, l.end, l.denom, l.amt, recv)
+		want := fmt.Sprintf("%d %s %d %d %s:%s %s", l.id, l.owner, l.dur, l.end, l.denom, e.real(l.amt), recv)
 		if s := e.lockStr(got); s != want {
 			e.o.Fail("lockrecord:fields:after-"+op, fmt.Sprintf("got %q want %q", s, want))
 		}
@@ -420,8 +439,8 @@ func (e *lockupEnv) oracle(op string) {
 					want += l.amt
 				}
 			}
-			if got := e.accum(dn, d); !got.Equal(osmomath.NewInt(want)) {
-				e.o.Fail("accum:after-"+op, fmt.Sprintf("denom %s duration>=%d accumulation %s, live locks sum to %d", dn, d, got, want))
+			if got := e.accum(dn, d); !got.Equal(e.real(want)) {
+				e.o.Fail("accum:after-"+op, fmt.Sprintf("denom %s duration>=%d accumulation %s, live locks sum to %s", dn, d, got, e.real(want)))
 			}
 		}
 	}
@@ -510,10 +529,10 @@ func (e *lockupEnv) observe(k int) {
 		}
 		switch e.r.Intn(7) {
 		case 0:
-			e.o.Emit("lockup modbal "+dn, fmt.Sprintf("ok %d", e.modBal(dn)), true)
+			e.o.Emit("lockup modbal "+dn, fmt.Sprintf("ok %s", e.real(e.modBal(dn))), true)
 		case 1:
 			if o != "X" {
-				e.o.Emit("lockup bal "+o+" "+dn, fmt.Sprintf("ok %d", e.bal(o, dn)), true)
+				e.o.Emit("lockup bal "+o+" "+dn, fmt.Sprintf("ok %s", e.real(e.bal(o, dn))), true)
 			}
 		case 2, 3:
 			e.o.Emit(fmt.Sprintf("lockup accum %s %d", dn, d), "ok "+e.accum(dn, d).String(), true)
@@ -686,7 +705,7 @@ func (e *lockupEnv) advance() {
 		if len(ends) > 0 {
 			sort.Slice(ends, func(i, j int) bool { return ends[i] < ends[j] })
 			t := ends[r.Intn(len(ends))]
-			if t >= e.now {
+			if t >= e.now && t < math.MaxInt64-2*(e.durs[len(e.durs)-1]+int64(time.Minute)) { // now + duration stays an int64 ns
 				e.now = t
 			}
 		}
@@ -734,6 +753,42 @@ func runLockup(t *testing.T, seed int64, n int, dir string) {
 		e.funded = map[string]map[string]int64{}
 		e.durSeen = map[int64]bool{0: true}
 		e.timeSeen = map[int64]bool{}
+		// magnitude classes (per history): amount unit K and a base added to the five durations
+		e.K = osmomath.OneInt()
+		kclass := "1"
+		if x := r.Intn(100); x < 30 {
+			big2 := func(n uint, add int64) osmomath.Int {
+				return osmomath.NewIntFromBigInt(new(big.Int).Add(new(big.Int).Lsh(big.NewInt(1), n), big.NewInt(add)))
+			}
+			switch x % 6 {
+			case 0:
+				e.K, kclass = big2(40, 0), "2^40"
+			case 1:
+				e.K, kclass = big2(63, int64(r.Intn(3))-1), "2^63+-1" // amounts straddle int64
+			case 2:
+				e.K, kclass = big2(64, 1+2*int64(r.Intn(1000))), "2^64+odd"
+			case 3:
+				e.K, kclass = big2(100+uint(r.Intn(29)), int64(r.Intn(2))), "2^100..2^128"
+			case 4:
+				e.K, kclass = big2(200, int64(r.Intn(1000))), "2^200"
+			default:
+				e.K, kclass = big2(241, -int64(r.Intn(2))), "2^241" // total supply of a denom just below 2^255
+			}
+		}
+		o.Count("class.amount-unit." + kclass)
+		dbase, dclass := int64(0), "seconds"
+		if x := r.Intn(100); x < 15 {
+			switch x % 3 {
+			case 0:
+				dbase, dclass = int64(14*24*time.Hour), "14d"
+			case 1:
+				dbase, dclass = int64(365*24*time.Hour), "1y"
+			default:
+				dbase, dclass = int64(30*365*24*time.Hour), "30y"
+			}
+		}
+		o.Count("class.duration-base." + dclass)
+		e.durs = []int64{dbase + int64(2*time.Second), dbase + int64(5*time.Second), dbase + int64(5*time.Second) + 1, dbase + int64(12*time.Second), dbase + int64(40*time.Second)}
 		for _, d := range e.durs {
 			e.noteDur(d)
 		}
@@ -748,11 +803,11 @@ func runLockup(t *testing.T, seed int64, n int, dir string) {
 					amt = int64(200 + r.Intn(3000))
 				}
 				if amt > 0 {
-					h.FundAcc(e.addrs[nm], sdk.NewCoins(sdk.NewInt64Coin(dn, amt)))
+					h.FundAcc(e.addrs[nm], sdk.NewCoins(e.coin(dn, amt)))
 				}
 				// whatever genesis gave the account counts as funding
 				e.funded[nm][dn] = e.bal(nm, dn)
-				fund = append(fund, fmt.Sprintf("%s %s %d", nm, dn, e.funded[nm][dn]))
+				fund = append(fund, fmt.Sprintf("%s %s %s", nm, dn, e.real(e.funded[nm][dn])))
 			}
 		}
 		e.allowed = "-"
@@ -821,12 +876,12 @@ func runLockup(t *testing.T, seed int64, n int, dir string) {
 				if r.Intn(15) == 0 {
 					amt = int64(r.Intn(5000))
 				}
-				coins := sdk.Coins{sdk.NewInt64Coin(dn, amt)}
+				coins := sdk.Coins{e.coin(dn, amt)}
 				switch r.Intn(40) {
 				case 0:
 					dur = 0
 				case 1:
-					coins = sdk.Coins{sdk.NewInt64Coin("bar", 1), sdk.NewInt64Coin("foo", 2)}
+					coins = sdk.Coins{e.coin("bar", 1), e.coin("foo", 2)}
 				case 2:
 					coins = sdk.Coins{}
 				case 3:
@@ -875,9 +930,9 @@ func runLockup(t *testing.T, seed int64, n int, dir string) {
 					ldn = sl.denom
 				}
 				amt := int64(1 + r.Intn(200))
-				line = fmt.Sprintf("lockup addtolock %d %d %s %s %d", now, id, own, ldn, amt)
+				line = fmt.Sprintf("lockup addtolock %d %d %s %s %s", now, id, own, ldn, e.real(amt))
 				ok := e.runTx(func(c sdk.Context) error {
-					_, err := k.AddTokensToLockByID(c, id, e.addrs[own], sdk.NewInt64Coin(ldn, amt))
+					_, err := k.AddTokensToLockByID(c, id, e.addrs[own], e.coin(ldn, amt))
 					return err
 				})
 				if !ok {
@@ -951,19 +1006,22 @@ func runLockup(t *testing.T, seed int64, n int, dir string) {
 					switch r.Intn(10) {
 					case 0, 1, 2:
 					case 3:
-						coins = sdk.Coins{sdk.NewInt64Coin(l.denom, l.amt)}
+						coins = sdk.Coins{e.coin(l.denom, l.amt)}
 					case 4:
-						coins = sdk.Coins{sdk.NewInt64Coin(l.denom, l.amt+1)}
+						coins = sdk.Coins{e.coin(l.denom, l.amt+1)}
+						if r.Intn(2) == 0 { // real amount + 1 (the same request when K = 1)
+							coins = sdk.Coins{e.coin(l.denom, l.amt).AddAmount(osmomath.OneInt())}
+						}
 					case 5:
-						coins = sdk.Coins{sdk.NewInt64Coin(dn, 1)}
+						coins = sdk.Coins{e.coin(dn, 1)}
 					default:
 						if l.amt > 1 {
-							coins = sdk.Coins{sdk.NewInt64Coin(l.denom, 1+r.Int63n(l.amt-1))}
+							coins = sdk.Coins{e.coin(l.denom, 1+r.Int63n(l.amt-1))}
 						}
 					}
 				}
 				if r.Intn(40) == 0 {
-					coins = sdk.Coins{sdk.NewInt64Coin(dn, 0)}
+					coins = sdk.Coins{e.coin(dn, 0)}
 				}
 				line = fmt.Sprintf("lockup beginunlock %d %s %d %s", now, own, id, e.coinsStr(coins))
 				msg := &lockuptypes.MsgBeginUnlocking{Owner: e.addrs[own].String(), ID: id, Coins: coins}
@@ -979,14 +1037,14 @@ func runLockup(t *testing.T, seed int64, n int, dir string) {
 					o.Fail("beginunlock:accepted-for-wrong-lock", line)
 					break
 				}
-				if len(coins) == 0 || (coins[0].Denom == sl.denom && coins[0].Amount.Int64() == sl.amt) {
+				if len(coins) == 0 || (coins[0].Denom == sl.denom && coins[0].Amount.Equal(e.real(sl.amt))) {
 					if resp.UnlockingLockID != id {
 						o.Fail("beginunlock:full-unlock-changed-id", line)
 					}
 					sl.end, sl.begin = now+sl.dur, now
 					o.Count("beginunlock.full")
 				} else {
-					x := coins[0].Amount.Int64()
+					x := e.units(coins[0].Amount, "request")
 					if coins[0].Denom != sl.denom || x <= 0 || x > sl.amt || resp.UnlockingLockID <= lastID {
 						o.Fail("beginunlock:bad-partial-accepted", line)
 						break
@@ -1116,12 +1174,12 @@ func runLockup(t *testing.T, seed int64, n int, dir string) {
 					switch r.Intn(6) {
 					case 0, 1:
 					case 2:
-						coins = sdk.Coins{sdk.NewInt64Coin(l.denom, l.amt)}
+						coins = sdk.Coins{e.coin(l.denom, l.amt)}
 					case 3:
-						coins = sdk.Coins{sdk.NewInt64Coin(l.denom, l.amt+1)}
+						coins = sdk.Coins{e.coin(l.denom, l.amt+1)}
 					default:
 						if l.amt > 1 {
-							coins = sdk.Coins{sdk.NewInt64Coin(l.denom, 1+r.Int63n(l.amt-1))}
+							coins = sdk.Coins{e.coin(l.denom, 1+r.Int63n(l.amt-1))}
 						}
 					}
 				}
@@ -1139,12 +1197,12 @@ func runLockup(t *testing.T, seed int64, n int, dir string) {
 					o.Fail("forceunlock:accepted-without-authority", line)
 					break
 				}
-				if len(coins) == 0 || coins[0].Amount.Int64() == sl.amt {
+				if len(coins) == 0 || coins[0].Amount.Equal(e.real(sl.amt)) {
 					released = append(released, sl)
 					delete(e.shadow, id)
 					o.Count("forceunlock.full")
 				} else {
-					x := coins[0].Amount.Int64()
+					x := e.units(coins[0].Amount, "request")
 					sl.amt -= x
 					released = append(released, &shLock{id: 0, owner: sl.owner, denom: sl.denom, amt: x, end: sl.end, dur: sl.dur})
 					o.Count("forceunlock.partial")
